@@ -1,8 +1,80 @@
 import PybtexModel.Drv.Json
+import PybtexModel.Model.Width
+import PybtexModel.Spec.TeXString
 open Lean
 namespace Pybtex.Drv.C12
 
-/-- driver ops of this property: (op name, handler) -/
-def handlers : List (String × (Json → Except String Json)) := []
+def errJ : Json := obj [("error", Json.str "BibTeXError")]
+def optE (f : α → Json) : Option α → Json
+  | some a => f a
+  | none => errJ
+
+def toksJ (l : List Tok) : Json := arr (l.map fun t => arr [strToJson t.1, nat t.2])
+
+def parseMode (s : Str) : Except String CaseMode :=
+  match s with
+  | ['l'] => pure .l | ['u'] => pure .u | ['t'] => pure .t
+  | _ => throw "bad mode"
+
+def parseSep (s : String) : Except String Sep :=
+  match s with
+  | "space" => pure .space | "comma" => pure .comma | "hyphen" => pure .hyphen | "and" => pure .and
+  | _ => throw "bad sep"
+
+def tex (j : Json) : Except String Json := do
+  let fn ← (← j.getObjVal? "fn").getStr?
+  let s ← getStr j "s"
+  match fn with
+  | "scan" => pure (obj [("out", optE toksJ (scan s))])
+  | "len" => pure (obj [("out", optE nat (bibtexLen s))])
+  | "prefix" => pure (obj [("out", optE strToJson (bibtexPrefix s (← getInt j "n")))])
+  | "substring" =>
+    let st ← getInt j "start"
+    let ln ← getInt j "len"
+    pure (obj [("out", strToJson (bibtexSubstring s st ln)), ("spec", strToJson (Spec.substring s st ln))])
+  | "purify" => pure (obj [("out", optE strToJson (bibtexPurify s))])
+  | "case" => pure (obj [("out", optE strToJson (changeCase s (← parseMode (← getStr j "mode"))))])
+  | "width" => pure (obj [("out", optE int (bibtexWidthStd s))])
+  | "fcb" => let r := findClosingBrace s; pure (obj [("out", arr [strToJson r.1, strToJson r.2])])
+  | "split" =>
+    let sep ← parseSep (← (← j.getObjVal? "sep").getStr?)
+    pure (obj [("out", strs (splitTex sep s)), ("raw", strs (splitTexRaw sep s))])
+  | "firstletter" => pure (obj [("out", optE strToJson (bibtexFirstLetter s))])
+  | "abbreviate" =>
+    let d := match j.getObjVal? "delim" with
+      | .ok (Json.str x) => some x.toList
+      | _ => none
+    pure (obj [("out", optE strToJson (bibtexAbbreviate s d))])
+  | _ => throw s!"unknown tex fn {fn}"
+
+/-- everything about one string in one reply -/
+def texAll (j : Json) : Except String Json := do
+  let s ← getStr j "s"
+  let ns ← (← getArr j "ns").mapM fun x => x.getInt?
+  let subs ← (← getArr j "subs").mapM fun x => do
+    let a ← x.getArr?
+    pure ((← (a[0]!).getInt?), (← (a[1]!).getInt?))
+  let out := obj [
+    ("scan", optE toksJ (scan s)),
+    ("len", optE nat (bibtexLen s)),
+    ("purify", optE strToJson (bibtexPurify s)),
+    ("case", obj [("l", optE strToJson (changeCase s .l)), ("u", optE strToJson (changeCase s .u)), ("t", optE strToJson (changeCase s .t))]),
+    ("width", optE int (bibtexWidthStd s)),
+    ("split", obj [("space", strs (splitTex .space s)), ("comma", strs (splitTex .comma s)),
+                   ("hyphen", strs (splitTex .hyphen s)), ("and", strs (splitTex .and s))]),
+    ("raw", obj [("space", strs (splitTexRaw .space s)), ("comma", strs (splitTexRaw .comma s)),
+                 ("hyphen", strs (splitTexRaw .hyphen s)), ("and", strs (splitTexRaw .and s))]),
+    ("firstletter", optE strToJson (bibtexFirstLetter s)),
+    ("abbreviate", optE strToJson (bibtexAbbreviate s none)),
+    ("fcb", let r := findClosingBrace s; arr [strToJson r.1, strToJson r.2]),
+    ("prefix", arr (ns.map fun n => optE strToJson (bibtexPrefix s n))),
+    ("substring", arr (subs.map fun p => strToJson (bibtexSubstring s p.1 p.2)))]
+  let spec := obj [
+    ("substring", arr (subs.map fun p => strToJson (Spec.substring s p.1 p.2))),
+    ("balanced", Json.bool (Spec.balanced s)),
+    ("maxdepth", nat (Spec.maxDepth 0 s))]
+  pure (obj [("out", out), ("spec", spec)])
+
+def handlers : List (String × (Json → Except String Json)) := [("tex", tex), ("texall", texAll)]
 
 end Pybtex.Drv.C12
